@@ -8,7 +8,7 @@ Open Scope Z_scope.
 Lemma of_N_addw64 : forall a b : N, Z.of_N (addw true a b) = wrap64 (Z.of_N a + Z.of_N b).
 Proof. intros. unfold addw, wrap64, two64. rewrite N2Z.inj_mod, N2Z.inj_add. reflexivity. Qed.
 
-(* Report, loop over the checked upkeeps: 1 = append to the report, 2 = totalReportGas += upkeepMaxGas; Cont = skipped
+(* Report, loop over the checked upkeeps: 1 = append to the report, 2 = totalReportGas += upkeepMaxGas; Fall = skipped
    (not eligible / Eligible or Detail failed / over the gas limit); Brk = batch size reached.  The model's loop
    (repaired variant: `err != nil || !ok`, uint64 sums) is the interpretation of the generated body. *)
 Lemma gen_v2_report_body : forall c r rs' total acc,
@@ -16,7 +16,7 @@ Lemma gen_v2_report_body : forall c r rs' total acc,
   loop true true c (r :: rs') total acc =
   match g_v2_report_body (r_eligerr r) (r_elig r) (r_deterr r) (Z.of_N total) (Z.of_N mx) (Z.of_N (v_limit c))
                          (Z.of_nat (length (acc ++ [r]))) (v_batch c) with
-  | ([], Cont) => loop true true c rs' total acc
+  | ([], Fall) => loop true true c rs' total acc
   | ([1; 2], Brk) => acc ++ [r]
   | ([1; 2], Fall) => loop true true c rs' (addw true total mx) (acc ++ [r])
   | _ => acc
